@@ -165,6 +165,12 @@ def run_child(sc, faults, rule_fault=None):
         f.write(data)
     os.chmod(path, sc["mode"])
     os.utime(path, ns=(1_500_000_000_000_000_000, 1_500_000_000_000_000_000))
+    if sc.get("prebak"):
+        # history: an earlier run (or a restore) left a backup file with other content behind, newer or older than the target
+        with open(path + ".bak", "wb") as f:
+            f.write(b"-- stale backup of an older revision\n")
+        t = 1_600_000_000_000_000_000 if sc["prebak"] == "newer" else 1_400_000_000_000_000_000
+        os.utime(path + ".bak", ns=(t, t))
     st0 = os.stat(path)
     argv = ["--fix"] + (["--backup"] if sc["backup"] else [])
     cla, oConfig, _ = drivers.build_config(None, sc.get("cfg"), argv, name=os.path.join("c16_" + sc["name"], "t.vhd"))
@@ -247,8 +253,11 @@ def inspect(sc, kind, msg, d, path, original, st0, fixed, remove_faulted=False):
         out.append(("mode_changed", f"{oct(sc['mode'])}->{oct(statmod.S_IMODE(st.st_mode))}"))
     if sc["backup"] and os.path.exists(path + ".bak"):
         with open(path + ".bak", "rb") as f:
-            if f.read() != original:
-                out.append(("backup_differs_from_original", ""))
+            bak = f.read()
+        stale = sc.get("prebak") and bak == b"-- stale backup of an older revision\n"
+        # a run that died or failed before/at the copy may leave the old backup; a run that went on to touch the target may not
+        if bak != original and not (stale and now == original):
+            out.append(("backup_differs_from_original", "stale" if stale else ""))
     if kind != "killed" and not remove_faulted and os.path.exists(path + ".tmp"):  # (if the removal itself is the injected failure nothing can remove it)
         out.append(("temporary_file_left_behind", kind))
     if sc["expect"] in ("parse_failure", "config_error"):
@@ -313,6 +322,8 @@ def scenarios(tier):
                 if tier == "quick" and expect != "fixable" and mode not in (0o644, 0o444):
                     continue
                 out.append({"name": f"{expect}{i}_{'b' if backup else 'n'}_{oct(mode)[2:]}", "expect": expect, "lines": lines, "cfg": cfg, "backup": backup, "mode": mode})
+    for pre in ("newer", "older"):
+        out.append({"name": f"fixable0_b_644_bak{pre}", "expect": "fixable", "lines": FIXABLE, "cfg": None, "backup": True, "mode": 0o644, "prebak": pre})
     return out
 
 
